@@ -177,6 +177,12 @@ pub trait VerifIo: AsyncRead + AsyncWrite + Unpin + Send {}
 #[cfg(feature = "verif")]
 impl<T: AsyncRead + AsyncWrite + Unpin + Send> VerifIo for T {}
 
+/// Verification hooks: path alias for the carrier trait.
+#[cfg(feature = "verif")]
+pub mod verif {
+    pub use super::VerifIo;
+}
+
 /// Substream type.
 enum SubstreamType {
     Tcp(tcp::Substream),
@@ -368,6 +374,17 @@ impl Substream {
         codec: ProtocolCodec,
     ) -> Self {
         Self::new(peer, substream_id, SubstreamType::Verif(substream), codec)
+    }
+
+    /// Alias of [`Substream::new_verif`] (verification hook).
+    #[cfg(feature = "verif")]
+    pub fn verif_new(
+        peer: PeerId,
+        substream_id: SubstreamId,
+        substream: Box<dyn VerifIo>,
+        codec: ProtocolCodec,
+    ) -> Self {
+        Self::new_verif(peer, substream_id, substream, codec)
     }
 
     /// Framing state (verification hook, read-only): `(pending_out_bytes,
